@@ -454,6 +454,33 @@ def ctzSmall (v : Nat) : Nat :=
   else if v % 32 == 16 then 4 else if v % 64 == 32 then 5 else if v % 128 == 64 then 6 else if v % 256 == 128 then 7
   else if v % 512 == 256 then 8 else 9
 
+/-- the prefix part of `EmitVexEvexM` once `x` is final: EVEX (with the broadcast LL fix-up or the compressed-displacement adjustment
+of the opcode word) or VEX3 / XOP / VEX2; returns the prefix bytes incl. the opcode byte and the adjusted opcode word -/
+def vexEvexMPrefix (c : Ctx) (x opcode options : BitVec 32) (m : Mem) : Except Err (List Byte × BitVec 32) :=
+  if (x &&& 0x80DF8110#32) != 0#32 then
+    let xw := evexWord x opcode
+    if (xw &&& 0x10000000#32) != 0#32 then
+      -- broadcast
+      let unit := c.bcstSize
+      let vecSize := unit <<< m.bcst
+      if unit == 0 then Except.error Err.invalidBroadcast else
+      let curLL := xw &&& (0x3#32 <<< 29)
+      let bLL : BitVec 32 := BitVec.ofNat 32 (max (ctzSmall vecSize) 4 - 4) <<< 29
+      if bLL > (2#32 <<< 29) then Except.error Err.invalidBroadcast else
+      let newLL := if curLL ≥ bLL then curLL else bLL
+      let xw := (xw &&& ~~~(0x3#32 <<< 29)) ||| newLL
+      let opcode := (opcode &&& ~~~kCDSHL_Mask) ||| (BitVec.ofNat 32 (ctzSmall unit) <<< 13)
+      Except.ok (le32 xw ++ [opcode.truncate 8], opcode)
+    else
+      let ttwll := ((opcode >>> 13) &&& 0x18#32) + ((opcode >>> 25) &&& 0x04#32) + ((xw >>> 29) &&& 0x3#32)
+      let opcode := opcode + cdisp8Shl ttwll
+      Except.ok (le32 xw ++ [opcode.truncate 8], opcode)
+  else
+    let x := vexPrep x opcode options
+    let opcode := opcode &&& ~~~kCDSHL_Mask
+    if (x &&& 0x8000807E#32) != 0#32 then Except.ok (le32 (vex3Word x opcode), opcode)
+    else Except.ok ([0xC5#8, (vex2Byte x).truncate 8, opcode.truncate 8], opcode)
+
 /-- `EmitVexEvexM` followed by `EmitModSib` / `EmitModVSib` -/
 def emitVexEvexM (c : Ctx) (opcode options opReg : BitVec 32) (m : Mem) (imm : BitVec 64) (immSize : Nat) : Except Err (List Byte) := do
   let rmInfo := memInfo m.baseType m.indexType
@@ -473,30 +500,7 @@ def emitVexEvexM (c : Ctx) (opcode options opReg : BitVec 32) (m : Mem) (imm : B
              else Except.ok (x ||| (options &&& oZMask))
            else Except.ok x)
   let x := if c.preferEvex && (x &&& 0x80DF8110#32) == 0#32 && (options &&& (oVex ||| oVex3)) == 0#32 then x ||| 0x10#32 else x
-  let (pfx, opcode) ← (
-    if (x &&& 0x80DF8110#32) != 0#32 then
-      let xw := evexWord x opcode
-      if (xw &&& 0x10000000#32) != 0#32 then
-        -- broadcast
-        let unit := c.bcstSize
-        let vecSize := unit <<< m.bcst
-        if unit == 0 then Except.error Err.invalidBroadcast else
-        let curLL := xw &&& (0x3#32 <<< 29)
-        let bLL : BitVec 32 := BitVec.ofNat 32 (max (ctzSmall vecSize) 4 - 4) <<< 29
-        if bLL > (2#32 <<< 29) then Except.error Err.invalidBroadcast else
-        let newLL := if curLL ≥ bLL then curLL else bLL
-        let xw := (xw &&& ~~~(0x3#32 <<< 29)) ||| newLL
-        let opcode := (opcode &&& ~~~kCDSHL_Mask) ||| (BitVec.ofNat 32 (ctzSmall unit) <<< 13)
-        Except.ok (le32 xw ++ [opcode.truncate 8], opcode)
-      else
-        let ttwll := ((opcode >>> 13) &&& 0x18#32) + ((opcode >>> 25) &&& 0x04#32) + ((xw >>> 29) &&& 0x3#32)
-        let opcode := opcode + cdisp8Shl ttwll
-        Except.ok (le32 xw ++ [opcode.truncate 8], opcode)
-    else
-      let x := vexPrep x opcode options
-      let opcode := opcode &&& ~~~kCDSHL_Mask
-      if (x &&& 0x8000807E#32) != 0#32 then Except.ok (le32 (vex3Word x opcode), opcode)
-      else Except.ok ([0xC5#8, (vex2Byte x).truncate 8, opcode.truncate 8], opcode))
+  let (pfx, opcode) ← vexEvexMPrefix c x opcode options m
   let pre := seg ++ ao ++ pfx
   if !c.vsib then
     emitModSib c pre seg.length opcode options opReg rbReg rxReg rmInfo m imm immSize false
